@@ -757,6 +757,44 @@ func ruleScopeTypestate(c *Ctx, rule string) {
 			})
 		}
 	}
+	// state-building helpers: a function whose state literal takes its scope from one of its parameters
+	// hands the typestate obligation to its call sites
+	helperParam := map[*types.Func]int{}
+	for _, fd := range c.allFuncDecls("soyhtml") {
+		fn := info.Defs[fd.Name].(*types.Func)
+		sig := fn.Type().(*types.Signature)
+		ast.Inspect(fd.Body, func(x ast.Node) bool {
+			cl, ok := x.(*ast.CompositeLit)
+			if !ok {
+				return true
+			}
+			tv, ok := info.Types[cl]
+			if !ok || !types.Identical(tv.Type, stateObj.Type()) {
+				return true
+			}
+			for _, el := range cl.Elts {
+				kv, ok := el.(*ast.KeyValueExpr)
+				if !ok {
+					continue
+				}
+				kid, ok := kv.Key.(*ast.Ident)
+				if !ok {
+					continue
+				}
+				if fv, ok := info.Uses[kid].(*types.Var); !ok || !isScope(fv.Type()) {
+					continue
+				}
+				if id, ok := ast.Unparen(kv.Value).(*ast.Ident); ok {
+					for i := 0; i < sig.Params().Len(); i++ {
+						if sig.Params().At(i) == info.Uses[id] {
+							helperParam[fn] = i
+						}
+					}
+				}
+			}
+			return true
+		})
+	}
 	for _, fd := range c.allFuncDecls("soyhtml") {
 		// local scope variables
 		locals := map[types.Object]bool{}
@@ -772,6 +810,14 @@ func ruleScopeTypestate(c *Ctx, rule string) {
 		ast.Inspect(fd.Body, func(x ast.Node) bool {
 			if cl, ok := x.(*ast.CompositeLit); ok {
 				if tv, ok := info.Types[cl]; ok && types.Identical(tv.Type, stateObj.Type()) {
+					hasLit = true
+				}
+			}
+			return true
+		})
+		ast.Inspect(fd.Body, func(x ast.Node) bool {
+			if call, ok := x.(*ast.CallExpr); ok {
+				if _, isHelper := helperParam[calleeFunc(call, info)]; isHelper && calleeFunc(call, info) != nil {
 					hasLit = true
 				}
 			}
@@ -829,6 +875,12 @@ func ruleScopeTypestate(c *Ctx, rule string) {
 						return true
 					}
 					id, ok := ast.Unparen(ctx).(*ast.Ident)
+					if ok {
+						if _, isHelper := helperParam[info.Defs[fd.Name].(*types.Func)]; isHelper && !locals[info.Uses[id]] {
+							c.ok(rule, key, x.Pos(), "state-building helper: the scope is its parameter; every call site is checked to pass an entered scope")
+							return true
+						}
+					}
 					if !ok || !locals[info.Uses[id]] {
 						c.bad(rule, key, x.Pos(), "the new state's scope is not a local scope variable ("+types.ExprString(ctx)+"): the callee would share the caller's frames")
 						return true
@@ -841,6 +893,21 @@ func ruleScopeTypestate(c *Ctx, rule string) {
 					}
 				case *ast.CallExpr:
 					cal := calleeFunc(x, info)
+					if pi, isHelper := helperParam[cal]; isHelper && report && cal != nil {
+						args := x.Args
+						if pi < len(args) {
+							ordLit++
+							nLits++
+							key := fmt.Sprintf("%s passes-scope-to %s#%d", c.declKey("soyhtml", fd), cal.Name(), ordLit)
+							aid, ok := ast.Unparen(args[pi]).(*ast.Ident)
+							if ok && locals[info.Uses[aid]] && st[k(info.Uses[aid])] == pushed {
+								c.ok(rule, key, x.Pos(), "the scope passed to the state-building helper has a renderer-allocated frame on top on every path")
+							} else {
+								c.bad(rule, key, x.Pos(), "the scope passed to the state-building helper may not have a fresh frame on top: the callee's variables would be written into the caller's data map")
+							}
+						}
+						return true
+					}
 					if cal == nil || !sf.set[cal] || !report {
 						return true
 					}
@@ -1085,11 +1152,35 @@ func ruleR02e(c *Ctx) {
 			c.bad("R02e", key, call.Pos(), "the called template is walked on the caller's own state: whatever the callee sets on it (autoescape mode, current template, scope) must be restored by hand on every exit, and is not")
 		default:
 			init := resolveLocalInit(id, fd.Body, info)
-			fresh := false
-			if u, ok := ast.Unparen(init).(*ast.UnaryExpr); ok && u.Op == token.AND {
-				if cl, ok := u.X.(*ast.CompositeLit); ok {
-					if tv, ok := info.Types[cl]; ok && types.Identical(tv.Type, stateObj.Type()) {
-						fresh = true
+			isStateLit := func(e ast.Expr) bool {
+				if u, ok := ast.Unparen(e).(*ast.UnaryExpr); ok && u.Op == token.AND {
+					if cl, ok := u.X.(*ast.CompositeLit); ok {
+						if tv, ok := info.Types[cl]; ok && types.Identical(tv.Type, stateObj.Type()) {
+							return true
+						}
+					}
+				}
+				return false
+			}
+			fresh := isStateLit(init)
+			if call, ok := ast.Unparen(init).(*ast.CallExpr); ok && !fresh {
+				// a helper all of whose returns are newly built states
+				if cal := calleeFunc(call, info); cal != nil {
+					for _, hd := range c.allFuncDecls("soyhtml") {
+						if info.Defs[hd.Name] != cal {
+							continue
+						}
+						rets, lits := 0, 0
+						ast.Inspect(hd.Body, func(y ast.Node) bool {
+							if r, ok := y.(*ast.ReturnStmt); ok && len(r.Results) == 1 {
+								rets++
+								if isStateLit(resolveLocalInit(r.Results[0], hd.Body, info)) {
+									lits++
+								}
+							}
+							return true
+						})
+						fresh = rets > 0 && rets == lits
 					}
 				}
 			}
